@@ -1,5 +1,6 @@
 (* C02 -- threshold completeness. Property theorems only. *)
 From CCT Require Import Prelude Hex Num Time Formats Json Auth.
+From CCT.Gen Require Pins.
 From CCT.proofs Require Import HexFacts SigFacts AuthFacts SignableFacts.
 From Coq Require Import Permutation.
 Open Scope N_scope.
@@ -36,7 +37,37 @@ Theorem C02_order_independent : forall ed_verify sha256 sd sm sm' kl kl' t gpg,
   <-> verify_signable ed_verify sha256 (VDict [(VStr (U"signatures"), VDict sm'); (VStr (U"signed"), sd)]) (VList kl') t gpg = Ok tt.
 Proof. exact verify_signable_perm. Qed.
 
+(* BEGIN SOURCE PINS -- written by harness/mkpins.py; the list is what Gen/Pins.v held for the tree the model was validated against *)
+(* the functions of the package this property depends on (call-graph closure of its entry points), each with the fingerprint of its
+   logic (AST without docstrings, annotations, messages, local names): the model and the correspondence runs were validated against
+   exactly these; a change of logic in any of them breaks this obligation and the check then searches for a failing input *)
+Theorem C02_source_pinned : CCT.Gen.Pins.pinned_C02 =
+  [(U"authentication._ascii", U"5f6fc6aad21f14d47c4f");
+   (U"authentication.verify_gpg_signature", U"ccbe2bc800d02410d16b");
+   (U"authentication.verify_signable", U"1bd56f9b4f5e7bcd88d9");
+   (U"authentication.verify_signature", U"7e0a2d567df7e9f0cdd4");
+   (U"common.MixinKey.from_hex", U"a6e4e81c0b16461490a5");
+   (U"common.PrivateKey.from_bytes", U"2cb488fc935b61f65bba");
+   (U"common.PublicKey.from_bytes", U"a439db0d070397bc2b47");
+   (U"common.canonserialize", U"64fc1dee1d7349d7a920");
+   (U"common.checkformat_byteslike", U"1c9da61d15ff3a1a9f97");
+   (U"common.checkformat_gpg_fingerprint", U"86e3bb7e4431fb481dc5");
+   (U"common.checkformat_gpg_signature", U"a3c5515ffb8c9f6183ba");
+   (U"common.checkformat_hex_key", U"625afdf8f56eb4c97143");
+   (U"common.checkformat_hex_string", U"eac17f8be3d488d4b8a0");
+   (U"common.checkformat_key", U"d3466826154e389f099e");
+   (U"common.checkformat_signature", U"d544854022da28dcc399");
+   (U"common.is_gpg_signature", U"f236e9c50126a7909e84");
+   (U"common.is_hex_key", U"63c7822022cd24f926e2");
+   (U"common.is_hex_signature", U"433f44075f931ec629d6");
+   (U"common.is_hex_string", U"35e6d253e0c21ac09fca");
+   (U"common.is_signable", U"6932517519189d75eb93");
+   (U"common.is_signature", U"cc04b1fcfd687d0beea7")].
+Proof. reflexivity. Qed.
+(* END SOURCE PINS *)
+
 Print Assumptions C02_verify_signable_complete.
 Print Assumptions C02_junk_is_skipped.
 Print Assumptions C02_accept_iff_enough.
 Print Assumptions C02_order_independent.
+Print Assumptions C02_source_pinned.
